@@ -76,4 +76,13 @@ def cumsumGraph (x : TG) (t : Nat) (dtype : Option Nat) (axis : Int) : Option TG
       | none => if isUnsignedCode t1 then .cast 13 cs else cs
       | some d => astypeG 7 d cs)
 
+/-- `where(c, x, y)` for a boolean condition and two integer / boolean operands of one ONNX element type `code`
+(`UniformShapeOperations.where.where_dtype_agnostic`): booleans as `xor(and(c, x), and(not c, y))`; int8 / int16 through
+int32 and uint16 / uint32 / uint64 through int64 (onnxruntime has no `Where` kernel for them); otherwise one `Where`. -/
+def whereGraph (c x y : TG) (code : Nat) : TG :=
+  if code = 9 then .bin .xor (.bin .and c x) (.bin .and (.not c) y)
+  else if code = 3 ∨ code = 5 then .cast code (.sel c (.cast 6 x) (.cast 6 y))
+  else if code = 4 ∨ code = 12 ∨ code = 13 then .cast code (.sel c (.cast 7 x) (.cast 7 y))
+  else .sel c x y
+
 end Ndx.TGraph
